@@ -2773,7 +2773,11 @@ func (checker *Checker) maybeAddResourceInvalidation(resource Resource, invalida
 	case resource.Variable != nil &&
 		resource.Variable.DeclarationKind != common.DeclarationKindSelf:
 
-		declarationOffset := resource.Variable.Pos.Offset
+		// NOTE: the variable might have no position, e.g. if it is a built-in
+		var declarationOffset int
+		if resource.Variable.Pos != nil {
+			declarationOffset = resource.Variable.Pos.Offset
+		}
 		invalidationOffset := invalidation.StartPos.Offset
 
 		checkJumpOffsets := func(jumpOffsets *persistent.OrderedSet[int]) bool {
